@@ -300,13 +300,24 @@ def sameclass(eng, a, b):
 
 @spec
 def forall_key(eng, f):
-    """forall q: Key. f(q)   (a genuinely quantified formula; used sparingly)"""
+    """forall q: Key. f(q)   (a genuinely quantified formula; used sparingly).  Its instances at the witness keys of
+    the maxima the path has asked for are stated explicitly (F => f(w) is valid whatever F's polarity), so that the
+    proofs about largest coefficients do not depend on the solver's quantifier instantiation."""
     eng.nfresh += 1
+    eng.quantified = True
     q = z3.Const("q!%d" % eng.nfresh, T.Key)
     body = eng.call(f, [SV(q, "key")], {})
     t = eng.tobool(body)
     t = z3.BoolVal(t) if isinstance(t, bool) else t
-    return SV(z3.ForAll([q], t), "bool")
+    F = z3.ForAll([q], t)
+
+    def inst(ksort, w, F=F, t=t, q=q):
+        if ksort != T.Key:
+            return
+        # the instance is obtained by substitution in the formula built *now* (the hook may run in a later state)
+        eng.facts.add(z3.Implies(F, z3.substitute(t, (q, w))))
+    FO.maxabs_hook(eng, inst)
+    return SV(F, "bool")
 
 
 @spec
@@ -788,6 +799,7 @@ def _asgset(eng, V):
 def _tq(eng, hint="tq"):
     from . import enumth as EN
     eng.nfresh += 1
+    eng.quantified = True
     return z3.Const("%s!%d" % (hint, eng.nfresh), EN.Asg)
 
 
